@@ -11,7 +11,7 @@ prefix = json.loads(sys.argv[3]) if len(sys.argv) > 3 else []
 drv = getattr(importlib.import_module("verifkit.mirsym.drivers." + mod), fn)
 ctx = PathCtx(prefix)
 it = Interp(prog, ctx, Models())
-h = Harness(it)
+h = Harness(it); h.params = {}
 try:
     drv(h)
     print("OK failures=", h.failures, "covers=", list(h.covers), "pending=", ctx.pending, "steps", it.steps)
